@@ -5,12 +5,23 @@ import (
 	//"encoding/hex"
 	"fmt"
 	"math/bits"
+	"net"
 
 	"Havoc/pkg/agent"
 	"Havoc/pkg/common/packer"
 	"Havoc/pkg/common/parser"
 	"Havoc/pkg/logger"
 )
+
+// peerAddress
+// returns the host part of a "host:port" peer address (IPv4 or bracketed IPv6).
+func peerAddress(RemoteAddr string) string {
+	host, _, err := net.SplitHostPort(RemoteAddr)
+	if err != nil {
+		return RemoteAddr
+	}
+	return host
+}
 
 // parseAgentRequest
 // parses the agent request and handles the given data.
